@@ -42,7 +42,7 @@ Proof. exact fix_slices_legacy_refuted. Qed.
 Print Assumptions C03_fix_slices_legacy_refuted.
 
 (** ... and a [CreateAfter] whose anchor ends at templated offset 0 underflowed in builds with
-    overflow checks (repaired by 133dede). *)
+    overflow checks (repaired by b64f167). *)
 Theorem C03_create_after_zero_legacy_refuted :
   tsts_ok id_tsts /\ fix_inv lit_file create_after_zero /\
   has_template_conflicts true false id_tsts lit_file create_after_zero = Crash site_create_after_underflow.
